@@ -92,6 +92,17 @@ CHECKS = {
                 ">= 1 event; distinct = distinct case hashes among those",
         "assumptions": TRUST + ["invalid UTF-8 is only required to produce valid JSON (encoding/json substitutes U+FFFD)"],
     },
+    "C04": {
+        "test": "TestC04", "level": "fault_enumeration", "checks": (250, 10000), "timeout": (900, 7200),
+        "rule": "rapid-generated scenarios on ONE streamer: history x start boundary x 1..3 failing attempts followed by a clean one; each failing attempt = fault kind in "
+                "{socket close, reset, short packet, out-of-sequence packet, ERR packet, EOF packet, invalid event, RowsQuery/IntVar/Rand event, undecodable event, cancel "
+                "from outside at packet i, cancel from inside the handler after tx j, handler error at call j, mapper error, mapper column-count mismatch} x fault point x "
+                "pacing {far ahead, lock-step}; the master serves every attempt from the coordinates that attempt's dump request asks for. Oracle: the transactions for which "
+                "the handler returned nil, concatenated over all attempts, equal the reference list (each once, in order), and each dump request lies in the window [end of the "
+                "last accepted transaction, start of the next transaction]. Non-trivial = a failing attempt ended after >= 1 accepted transaction and before the end of the "
+                "history; distinct = distinct scenario hashes among those",
+        "assumptions": TRUST + ["undecodable events are those the decoder reports as errors (binlog v3 FDE, query db-length overrun, short ROTATE, unknown column type, unknown checksum algorithm, unannounced table id)"],
+    },
 }
 
 NOT_APPLICABLE = {}
